@@ -57,6 +57,11 @@ func main() {
 		mon.C14Cold(os.Args[4], os.Args[2], seed, idx)
 		return
 	}
+	if len(os.Args) >= 4 && os.Args[1] == "C14ages" {
+		seed, _ := strconv.ParseInt(os.Args[3], 10, 64)
+		mon.C14Ages(os.Args[2], seed)
+		return
+	}
 	if len(os.Args) >= 5 && os.Args[1] == "C14child" {
 		seed, _ := strconv.ParseInt(os.Args[3], 10, 64)
 		mon.C14Child(os.Args[4], os.Args[2], seed)
